@@ -23,7 +23,7 @@ func init() {
 func genNoReentrantLocks(sb *strings.Builder) error {
 	var offenders []string
 	for _, pkg := range []string{"peering", "state", "router", "m", "storage", "switchr", "frame", "api/dns", "mgr"} {
-		files, _ := filepath.Glob("/repo/" + pkg + "/*.go")
+		files, _ := filepath.Glob(repoRoot() + "/" + pkg + "/*.go")
 		fset := token.NewFileSet()
 		type meth struct {
 			fn   *ast.FuncDecl
@@ -222,7 +222,7 @@ func genLocksReleased(sb *strings.Builder) error {
 		return "", ""
 	}
 	for _, pkg := range []string{"peering", "state", "router", "m", "storage", "switchr", "frame", "api/dns", "mgr", "config", "tun"} {
-		files, _ := filepath.Glob("/repo/" + pkg + "/*.go")
+		files, _ := filepath.Glob(repoRoot() + "/" + pkg + "/*.go")
 		for _, file := range files {
 			if strings.HasSuffix(file, "_test.go") || strings.HasSuffix(file, "verif_hooks.go") {
 				continue
@@ -266,7 +266,7 @@ func genLocksReleased(sb *strings.Builder) error {
 						break
 					}
 					if !released {
-						offenders = append(offenders, fmt.Sprintf("%s %s: %s.%s()", strings.TrimPrefix(file, "/repo/"), where, mu, kind))
+						offenders = append(offenders, fmt.Sprintf("%s %s: %s.%s()", strings.TrimPrefix(file, repoRoot()+"/"), where, mu, kind))
 					}
 				}
 			}
